@@ -98,4 +98,73 @@ Section Type2.
     | (false, _) => None
     end.
 End Type2.
+
+(** ** type 0x0005: the VOPRF core per element over ristretto255 (32-byte encodings, 64-byte outputs), one batched
+    DLEQ proof, elements carried in the varint-prefixed list of the C04 codec *)
+Section Type5.
+  Variable F : Type.
+  Variables (f0 f1 : F) (fmul : F -> F -> F) (finv : F -> F).
+  Variable h256 : list byte -> list byte.
+  Variable h2g : list byte -> F.
+  Variable enc_elt : F -> list byte.                     (* 32 bytes *)
+  Variable dec_elt : list byte -> option F.
+  Variable fin : list byte -> F -> list byte.            (* 64 bytes *)
+  Variable prove_b : F -> list F -> list F -> list byte -> list byte.   (* 64-byte batched proof *)
+  Variable dleq_b_ok : F -> list F -> list F -> list byte -> bool.     (* decodes canonically and verifies *)
+
+  Record state5 := { s5_inputs : list (list byte); s5_blinds : list F; s5_blinded : list F; s5_pk : F; s5_req : req5 }.
+  Definition create5 (pk : F) (betas : list F) (nonces : list (list byte)) (challenge keyid : list byte) : state5 :=
+    let inputs := map (fun n => token_input h256 5 n challenge keyid) nonces in
+    let bl := map (fun p => fmul (fst p) (h2g (snd p))) (combine betas inputs) in
+    {| s5_inputs := inputs; s5_blinds := betas; s5_blinded := bl; s5_pk := pk;
+       s5_req := {| q5_keyid := b2n (last keyid x00); q5_elems := map enc_elt bl |} |}.
+  Fixpoint dec_all (l : list (list byte)) : option (list F) :=
+    match l with
+    | [] => Some []
+    | e :: t => match dec_elt e, dec_all t with Some x, Some r => Some (x :: r) | _, _ => None end
+    end.
+  (** BatchedPrivateIssuer.Evaluate on a decoded request *)
+  Definition evaluate5 (k : F) (rnd : list byte) (r : req5) : option (list byte) :=
+    match dec_all (q5_elems r) with
+    | None => None
+    | Some bs =>
+      let evs := map (fmul k) bs in
+      let body := concat (map enc_elt evs) in
+      Some (enc_varint (N.of_nat (length body)) ++ body ++ prove_b k bs evs rnd)
+    end.
+  Fixpoint all_some {A} (l : list (option A)) : option (list A) :=
+    match l with
+    | [] => Some []
+    | Some x :: t => match all_some t with Some r => Some (x :: r) | None => None end
+    | None :: _ => None
+    end.
+  (** BatchedPrivateTokenRequestState.FinalizeTokens on ARBITRARY response bytes *)
+  Definition finalize5 (s : state5) (resp : list byte) : option (list token) :=
+    match consume_varint resp with
+    | None => None
+    | Some (l, off) =>
+      let r1 := skipn off resp in
+      if N.of_nat (length r1) <? l then None else
+      let body := firstn (N.to_nat l) r1 in
+      let r2 := skipn (N.to_nat l) r1 in
+      if negb (Nat.eqb (Nat.modulo (length body) 32) 0) then None else
+      let n := Nat.div (length body) 32 in
+      if negb (Nat.eqb n (length (s5_inputs s))) then None else
+      match dec_all (chunks32 n body) with
+      | None => None
+      | Some evs =>
+        if Nat.ltb (length r2) 64 then None else
+        if negb (dleq_b_ok (s5_pk s) (s5_blinded s) evs (firstn 64 r2)) then None else
+        all_some (map (fun p => dec_token 64 (fst (fst p) ++ fin (fst (fst p)) (fmul (finv (snd (fst p))) (snd p))))
+                      (combine (combine (s5_inputs s) (s5_blinds s)) evs))
+      end
+    end.
+  Definition run5 (k : F) (betas : list F) (rnd : list byte) (nonces : list (list byte)) (challenge keyid : list byte)
+    : option (list token) :=
+    let s := create5 (fmul k f1) betas nonces challenge keyid in
+    match um_req5 {| q5_keyid := 0; q5_elems := [] |} (enc_req5 (s5_req s)) with
+    | (true, r) => match evaluate5 k rnd r with Some resp => finalize5 s resp | None => None end
+    | (false, _) => None
+    end.
+End Type5.
 Close Scope N_scope.
